@@ -349,6 +349,17 @@ def main():
             reg_consts[vid] = m["ns"] + "." + lname
         st["functions"] = len(tr.order)
         st["names"] = [i.lean_name for i in tr.order]
+        if m.get("sigs"):
+            sg = {}
+            for i in tr.order:
+                cps = [c for c in i.decl.get("inner", []) if c.get("kind") == "ParmVarDecl"]
+                sg[i.lean_name] = {"c_name": i.decl.get("name"), "class": i.decl.get("_class"),
+                                   "line": (i.decl.get("loc", {}) or {}).get("line"),
+                                   "params": [{"name": c.get("name"), "ctype": c["type"]["qualType"]} for c in cps],
+                                   "lean_params": [{"name": q["name"], "cat": q["cat"], "mode": q["mode"]} for q in i.params],
+                                   "outs": [list(o) for o in i.outs], "ret": i.ret_cat,
+                                   "alias": getattr(i, "alias", None)}
+            st["sigs"] = sg
         text = tr.emit(m["imports"])
         write_if_changed(os.path.join(GEN_DIR, name + ".lean"), text)
         if m.get("dispatch", True):
